@@ -34,11 +34,26 @@ CHECKS = {
    text="Proved: processRequest on any engine equals processRequest on the restarted engine (same store, all transient fields reset), for responses and resulting store; corollary over all histories. Tied to /repo by sending every probe both to the live engine and to a fresh KmipEngine opened on a copy of the database taken just before (implementation-vs-implementation monitor), probes biased to identifier-less requests for the 14 placeholder-reading handlers and to version/identity switches.",
    note=TRUST,
    ref="§5 C11"),
+ "C13": dict(
+   technique="Lean 4: compositional NoInternal calculus over the engine model (never ends in a non-KMIP exception) for lifecycle, read, cryptographic, MAC and wrapping operations + decide over the regenerated rule table; complete operation x type x state x version x parameter grid with the real cryptography backend as recorded oracle",
+   text="Proved (model of the repaired tree): Activate, Revoke, Destroy, Get (plain and with key wrapping), GetAttributes, GetAttributeList, Encrypt, Decrypt, Sign, SignatureVerify, MAC, Query, DiscoverVersions and every undispatched operation never end in the internal-error outcome, for every store, identity, version and parameter value, provided the cryptography backend answers with a result or a KMIP error; the rule-table facts used (value shape vs multivalued flag) are decided on the regenerated table. Partial: object creation with template attributes, attribute operations and Locate filters are covered by the grid correspondence and the implementation monitor only (theorem planned). Tied to /repo by the grid operation x 8 object kinds x 4 states x 6 versions x parameter menu (every attribute name of the table, unknown and x- names, algorithm/mode/padding/hash/derivation menus, odd IV/tag/data lengths) run on the real engine with the REAL cryptography backend whose answers are recorded and given to the model as oracle; the monitor is 'result reason != General Failure'. 11 genuine defects found this way were repaired in /repo (known_findings.json).",
+   note=TRUST + "Ill-formed requests (Query without function, DeriveKey without base object) are outside the property. Modelled, not verified: the cryptography library (its answers are an oracle).",
+   ref="§5 C13"),
+ "C14": dict(
+   technique="Lean 4 refinement of the Locate filter loop to slice . stable-sort-desc . filter(matches) . filter(permitted) + sortedness, permutation, page-partition theorems; correspondence against an independent predicate",
+   text="Proved: whenever Locate answers, the identifier list equals slice(offset,max) of the stable newest-first sort of the permitted objects that pass the per-object filter conjunction (locate_spec); the sort is sorted, a permutation and stable; consecutive pages concatenate to the bigger page (partition); objects to whose type a filter attribute is not applicable never match; date filters: one = exact, two = inclusive range in either order, three = Invalid Field. Tied to /repo by random stores x filter conjunctions over the attributes the property lists x offset/maximum x requesters, with the expected list recomputed from the store dump by an independent Python predicate (monitor) and by the model.",
+   note=TRUST + "Domain guards: offset/maximum >= 0; initial date != 0. Ties in initial date keep identifier order.",
+   ref="§5 C14"),
  "C15": dict(
    technique="Lean 4: decide over the regenerated attribute rule table + handler-level frame theorems + exactness lemmas; attribute-operation correspondence with full store dumps",
    text="Proved: the regenerated rule table marks algorithm, length, usage mask and policy name as not client-modifiable (decide +kernel, re-checked against /repo each run); under that table no history changes identifier, type, owner, policy name, mask, algorithm, length or initial date of any object and the state only moves forward; a successful Set/Modify/Delete replaces the addressed object by a copy differing at most in names, groups, application info and sensitive flag; ModifyAttribute by index changes exactly that instance; DeleteAttribute by index removes exactly it and refuses negative indices; other objects untouched; failure changes nothing. Tied to /repo by sequences of both request forms over all table names and index classes with the full store compared after every request.",
    note=TRUST,
    ref="§5 C15"),
+ "C16": dict(
+   technique="Lean 4: decide +kernel over tables regenerated from /repo (decorator minimum versions, dispatch set, Query answers, DiscoverVersions, attribute added/deprecated versions) + gating theorems on the engine model; complete operation x version and attribute x version matrices",
+   text="Proved: the model's per-operation minimum versions and dispatch set equal the live engine's (probed through the decorator on every run); every operation Query advertises under a version is available under it; DiscoverVersions lists exactly the supported versions, newest first; an unsupported version is refused with nothing executed; an operation below its minimum version or undispatched is refused; whatever GetAttributes/GetAttributeList report under a version is supported and not deprecated at that version by the rule table; unsupported attributes are refused in templates; Sensitive is gated to >= 1.4 and Operation Policy Name disappears in 2.0 on the real table. Tied to /repo by the complete operation x version matrix (6 supported + 4 unsupported versions), Query/DiscoverVersions under every version, GetAttributeList/GetAttributes of fully attributed objects of 7 types under every version, checked against a version table taken from the KMIP specification (monitor) and against the model. Version echo in the response header is checked by the monitor here and proved for the session model in C12; version-conditional message fields belong to C01.",
+   note=TRUST,
+   ref="§5 C16"),
 }
 
 def main():
